@@ -154,7 +154,7 @@ def _shards(tier):
         return [{"n": n, "first": p, "universe": list(universe)} for p in _prefixes(depth, universe)]
     if tier == "quick":
         return fam(5, (1, 3, 2), 2) + fam(4, (2, 3, 2), 2)
-    return fam(6, (2, 3, 2), 3) + fam(7, (1, 3, 1), 2)
+    return fam(5, (2, 3, 2), 2) + fam(6, (2, 3, 1), 3) + fam(7, (1, 3, 1), 2)
 
 
 OBLIGATIONS = [Obligation(
@@ -167,7 +167,7 @@ OBLIGATIONS = [Obligation(
     symbolic="the event history: per step a solver-chosen index into the events enabled in the reference state "
              "(subscribe, websocket close, register, unregister over 2 users, 3 connection ids, 2 units)",
     bounds={"quick": "all histories of 5 events with (1 user, 3 connections, 2 units); of 4 events with (2 users, 3 connections, 2 units)",
-            "thorough": "all histories of 6 events with (2 users, 3 connections, 2 units); of 7 events with (1 user, 3 connections, 1 unit)"},
+            "thorough": "all histories of 5 events with (2 users, 3 connections, 2 units); of 6 events with (2 users, 3 connections, 1 unit); of 7 events with (1 user, 3 connections, 1 unit)"},
     assumptions=["a connection id belongs to one user and is never reused after its websocket closed (ids are per-websocket uuids)",
                  "user, connection and unit ids are interchangeable: new ids are introduced in a fixed order (symmetry reduction)",
                  "FrontendPublisher replaced by a stub that records the callbacks FromFrontend registers and publishes nothing; asyncio.create_task is a no-op",
